@@ -147,3 +147,93 @@ func firstLine(s string) string {
 	}
 	return s
 }
+
+// replayBenign: the negative control of the seeded-fault self test. Every behaviour-preserving variant stored under
+// /verif/benign (refactorings by independent testers: renames, helper extraction / inlining, restructured control
+// flow, each confirmed to build and pass the suite) is applied to a scratch copy of the current tree and the
+// property's quick check is run on it in a sub-process; it must stay silent. Only meaningful when the tree itself
+// is clean for this property, so it is skipped as soon as the main run has a finding. A variant whose patch no
+// longer applies is skipped.
+func replayBenign(id string, r *core.Result) {
+	if len(r.Findings) > 0 {
+		return
+	}
+	rs := r.Rule("selftest:benign", "negative control: stored behaviour-preserving variants of the current tree (renames, helper extraction/inlining, restructured control flow) must not be reported")
+	files, _ := filepath.Glob(filepath.Join(core.VerifDir(), "benign", "*.diff"))
+	if alt, _ := filepath.Glob("/verif/benign/*.diff"); len(files) == 0 {
+		files = alt
+	}
+	sort.Strings(files)
+	self, err := os.Executable()
+	if err != nil || len(files) == 0 {
+		return
+	}
+	type outcome struct {
+		name, status, detail string
+	}
+	results := make([]outcome, len(files))
+	sem := make(chan struct{}, 8)
+	done := make(chan int, len(files))
+	for i, pf := range files {
+		go func(i int, pf string) {
+			sem <- struct{}{}
+			defer func() { <-sem; done <- i }()
+			name := strings.TrimSuffix(filepath.Base(pf), ".diff")
+			results[i] = outcome{name: name, status: "skipped"}
+			scratch, err := os.MkdirTemp("", "rjverif-benign-")
+			if err != nil {
+				return
+			}
+			defer os.RemoveAll(scratch)
+			src := filepath.Join(scratch, "src")
+			if out, err := exec.Command("cp", "-r", core.RepoDir(), src).CombinedOutput(); err != nil {
+				results[i].detail = "copy failed: " + string(out)
+				return
+			}
+			os.RemoveAll(filepath.Join(src, ".git"))
+			ap := exec.Command("patch", "-p1", "-s", "-f", "-i", pf)
+			ap.Dir = src
+			if out, err := ap.CombinedOutput(); err != nil {
+				results[i].detail = "patch no longer applies: " + strings.TrimSpace(firstLine(string(out)))
+				return
+			}
+			cmd := exec.Command(self, "check", id, "--tier", "quick")
+			cmd.Env = append(os.Environ(), "VERIF_REPO="+src, "VERIF_DIR="+filepath.Join(scratch, "out"), "VERIF_TIER=quick")
+			out, _ := cmd.CombinedOutput()
+			text := string(out)
+			switch {
+			case strings.Contains(text, "\nOK property=") || strings.HasPrefix(text, "OK property="):
+				results[i].status = "silent"
+			case strings.Contains(text, "rule=load "):
+				// the variant does not type-check on this tree (it was made against another revision): not a verdict
+				results[i].detail = "variant does not load on this tree"
+			default:
+				results[i].status = "alarm"
+				for _, ln := range strings.Split(text, "\n") {
+					if strings.HasPrefix(ln, "  VIOLATION") || strings.HasPrefix(ln, "  UNDECIDED") {
+						results[i].detail = strings.TrimSpace(ln)
+						break
+					}
+				}
+			}
+		}(i, pf)
+	}
+	for range files {
+		<-done
+	}
+	silent, skipped := 0, 0
+	for _, o := range results {
+		switch o.status {
+		case "silent":
+			rs.Instances++
+			rs.OK(1)
+			silent++
+		case "alarm":
+			rs.Instances++
+			r.Undecided(rs, "benign:"+o.name, "-", "the behaviour-preserving variant "+o.name+" is reported by this property's rules (false alarm of the checker): "+o.detail)
+		default:
+			skipped++
+		}
+	}
+	r.Notes = append(r.Notes, fmt.Sprintf("behaviour-preserving variants for %s: %d silent of %d (%d skipped: patch no longer applies)", id, silent, len(files), skipped))
+}
